@@ -6,6 +6,7 @@ import (
 	"crypto/sha256"
 	"encoding/binary"
 	"fmt"
+	"math"
 	"sync"
 	"sync/atomic"
 	"time"
@@ -136,7 +137,9 @@ func (w *c11World) handler(srv int, lg *rng.R) func(ctx context.Context, resp []
 		case bhNegative:
 			// scribble something into resp first: it must never surface as a success
 			copy(resp, "NEGATIVE-RESPONSE-MUST-NOT-SURFACE")
-			return finish(nil, -1)
+			// every value < 0 signals failure, not only -1: magnitudes around the widths an error code may be squeezed into
+			negs := []int{-1, -1, -2, -255, -256, -257, -512, -65535, -65536, math.MinInt32, math.MinInt}
+			return finish(nil, negs[int(e.Seq)%len(negs)])
 		case bhSlow:
 			time.Sleep(time.Duration(200+lg.Intn(1500)) * time.Microsecond)
 		}
